@@ -100,8 +100,12 @@ func relOf(c *Case, kind, rel string) *Case {
 func init() {
 	// C04: annotation shapes x substitutions
 	gens["C04"] = func(r *RNG, id string) *Case {
-		if r.Chance(1, 6) { // the SAM form: several reads per worker, insertions at different places in reads of one width
+		if r.Chance(1, 4) { // the SAM form: several reads per worker, insertions at different places in reads of one width,
+			// queries cut into overlapping records with a short and a long insertion (every coordinate right of a
+			// mis-spliced insertion shifts: substitutions are lost and invented)
+			genSamOverlapOften = r.Bool()
 			c := samVarGen(r, id, r.PickInt([]int{2, 5}), false)
+			genSamOverlapOften = false
 			c.Set("focus", "nucaa")
 			c.Tag("sam-form")
 			return c
